@@ -53,6 +53,10 @@ def main(argv):
 
         print(json.dumps(selftest.digests(argv[1], int(argv[2]), int(argv[3]), int(argv[4]))))
         return 0
+    if cmd == "selftest-sim":
+        from . import simtest
+
+        return simtest.main(argv[1:])
     if cmd == "selftest-determinism":
         from . import selftest
 
